@@ -100,6 +100,16 @@ def rule_constructors(ctx):
                     problems.append("graphemes() is applied to %s but the predicate looked at %s" % (show(ga), show(src)))
             if any(callee(t).endswith("Iterator::rev") or callee(t).endswith("::sort") or callee(t).endswith("dedup") for bi, t in fn.calls()):
                 problems.append("the grapheme sequence is reordered / deduplicated")
+            # every way the character buffer is filled on this edge takes its characters from chars::graphemes
+            for fb, ft in fn.calls(lambda t: callee(t).rsplit("::", 1)[-1] in ("extend", "extend_from_slice", "push", "extend_from_within", "insert", "resize", "append")):
+                if not fn.must_pass(fb, via_edges=[(ht["target"], false_t)]) or len(ft.get("args", [])) < 2:
+                    continue
+                a0 = show(fn.expr_of_operand(ft["args"][0]))
+                if "Vec" not in str(ft.get("fn")) and "Vec" not in callee(ft) and "Extend" not in callee(ft):
+                    continue
+                src_e = fn.expr_of_operand(ft["args"][1])
+                if not any(x[0] == "call" and str(x[1]) == GRAPHEMES for x in walk(src_e)):
+                    problems.append("the character buffer is (also) filled from %s, not from chars::graphemes" % show(src_e)[:90])
         if problems:
             ctx.violation(key, site(fn, hb), "; ".join(problems))
         else:
